@@ -1222,6 +1222,41 @@ func c17WorldStreams(t *testing.T, r *c17Run, rnd *vRand) {
 		}
 	}
 	r.rec.Extra("world_matrix", "setLastCheckpointSeq on every document state reachable by {nothing, checkpoint 5 under h1 / h2, 9 under h1} followed under h1 / h2 by {nothing, 8 stored on both, locally only, not at all, local deleted, remote deleted, both rewritten, local-only then remote deleted, local-only then local deleted, \"0\" locally only} x new config hash h1 / h2 x roll-back write failing or not")
+	// compound: every ordered pair of canonical tokens of all four printable shapes (seq, trig:seq, low::seq,
+	// low:trig:seq) stored as a MISMATCHED local / remote pair, both ways round - including every pair on which the
+	// numeric SafeSequence order and SequenceID.Before disagree (4 vs 7:3, 3::8 vs 6, 2:9:4 vs 3 ...) - then a restart
+	toks := []SequenceID{{Seq: 4}, {Seq: 6}, {Seq: 9}, {TriggeredBy: 7, Seq: 3}, {TriggeredBy: 12, Seq: 2}, {TriggeredBy: 1004, Seq: 3},
+		{LowSeq: 3, Seq: 8}, {LowSeq: 5, Seq: 11}, {LowSeq: 2, TriggeredBy: 9, Seq: 4}, {LowSeq: 8, TriggeredBy: 10, Seq: 1}}
+	disagree := 0
+	for _, a := range toks {
+		for _, b := range toks {
+			if !a.Before(b) {
+				continue
+			}
+			if b.SafeSequence() <= a.SafeSequence() {
+				disagree++
+			}
+			for _, wd := range []bool{false, true} {
+				// local b, remote a: the remote half of the second checkpoint is lost (crash between the two writes)
+				w := c17NewWorld(r, env, 100)
+				for _, o := range []c17POp{R(1), E(a, b), P(a), T, P(b), Trd, {K: 'R', H: 1, A: wd}, St, E(b), P(b), T, R(1), St} {
+					if !w.do(o) {
+						break
+					}
+				}
+				w.emit("world-compound")
+				// local a, remote b: both hold b, then a turns up late and only its local half is written
+				w = c17NewWorld(r, env, 100)
+				for _, o := range []c17POp{R(1), E(b), P(b), T, E(a), P(a), Trd, {K: 'R', H: 1, A: wd}, St, E(b), P(b), T, R(1), St} {
+					if !w.do(o) {
+						break
+					}
+				}
+				w.emit("world-compound")
+			}
+		}
+	}
+	r.rec.Extra("world_compound_pairs_where_SafeSequence_and_Before_disagree", disagree)
 	for i := 0; i < vBudget(220, 900); i++ {
 		c17SessionWorld(r, env, rnd, false, "world-session")
 	}
